@@ -48,6 +48,9 @@ class CP(plumpy.Process):
             child = self.launch(CP, inputs={'name': plan['launch']})
             PLAN['_procs'].append(child)
             sample(self, f'{me}:run:after-launch')
+            for k in range(plan.get('awaits_after', 0)):
+                await asyncio.sleep(0)      # the child's step starts and suspends while this step is still open
+                sample(self, f'{me}:run:after-launch-await{k}')
         if plan.get('callback'):
             self.call_soon(self.cb)
         if plan.get('nested') is not None:
@@ -86,18 +89,19 @@ def evaluate(facts):
                         where=kinds[:12], **facts)
 
 
-def concurrent(n3: bool, a0: int, a1: int, b0: int, b1: int, c0: int, launcher: int, cb: bool, wait: bool, pause_at: int):
+def concurrent(n3: bool, a0: int, a1: int, b0: int, b1: int, c0: int, launcher: int, cb: bool, wait: bool, pause_at: int, al: int):
     """2-3 processes stepping concurrently on one loop; symbolic number of await points per step; one of them launches a
     child from its step; optional call_soon callback, wait/resume and pause/play"""
-    for x in (a0, a1, b0, b1, c0):
-        assume(0 <= x <= 2)
+    a0, a1, b0, b1, c0, al = pick(a0, 3), pick(a1, 3), pick(b0, 3), pick(b1, 3), pick(c0, 3), pick(al, 3)
     la = pick(launcher, 3)
-    assume(-1 <= pause_at <= 6)
+    if la == 0:
+        assume(al == 0)
+    assume(-1 <= pause_at <= PAUSE_MAX[0])
     del SAMPLES[:]
     PLAN.clear()
     PLAN['_procs'] = []
-    PLAN['A'] = dict(awaits0=a0, awaits1=a1, launch='K' if la == 1 else None, callback=cb, wait=wait)
-    PLAN['B'] = dict(awaits0=b0, awaits1=b1, launch='K' if la == 2 else None, callback=False, wait=False)
+    PLAN['A'] = dict(awaits0=a0, awaits1=a1, launch='K' if la == 1 else None, callback=cb, wait=wait, awaits_after=al)
+    PLAN['B'] = dict(awaits0=b0, awaits1=b1, launch='K' if la == 2 else None, callback=False, wait=False, awaits_after=al)
     PLAN['C'] = dict(awaits0=c0, awaits1=0)
     PLAN['K'] = dict(awaits0=1, awaits1=1)
     loop = fresh_loop()
@@ -144,6 +148,8 @@ def concurrent(n3: bool, a0: int, a1: int, b0: int, b1: int, c0: int, launcher: 
         NOTES.nontrivial = True
         if la:
             NOTES.witness('child_launched_from_step')
+        if la and al:
+            NOTES.witness('parent_and_child_steps_open_at_once')
         if cb:
             NOTES.witness('scheduled_callback')
         if any(w.startswith('hook:on_paused') for (w, _e, _g) in SAMPLES):
@@ -184,6 +190,7 @@ def nested(depth: int, a0: int, b0: int):
         plumpy.reset_event_loop_policy()
 
 
+PAUSE_MAX = [6]
 HARNESSES = {'concurrent': concurrent, 'nested': nested}
 
 
@@ -194,7 +201,9 @@ def shards(tier):
             for wait in (False, True):
                 fixed = dict(launcher=launcher, n3=n3, wait=wait)
                 if tier == 'quick':
-                    fixed.update(c0=1, b1=0)
+                    fixed.update(c0=1, b1=0, a1=0)
+                    if n3 and launcher == 0:
+                        continue
                 out.append(dict(name=f'concurrent/{fixed}', harness='concurrent', fixed=fixed, budget_s=400 if tier == 'quick' else 2400))
     return out
 
@@ -210,5 +219,5 @@ RULE = 'paths over (number of await points per step, who launches a child, callb
 SOLVER_ROLE = 'selector role: the symbolic await counts / positions determine the interleaving; the solver enumerates them exhaustively'
 EXPLANATION = 'Process.current() sampled inside generated steps, hooks and callbacks must be the process owning the code; a probe task outside any process must see None'
 ASSUMPTIONS = ['FIFO StepLoop for the concurrent scenario; stock asyncio loop + plumpy.set_event_loop_policy() for re-entrant execute()']
-REQUIRED_WITNESSES = ['child_launched_from_step', 'scheduled_callback', 'pause_hooks', 'interleaved_async_steps', 'nested_execute']
+REQUIRED_WITNESSES = ['parent_and_child_steps_open_at_once', 'child_launched_from_step', 'scheduled_callback', 'pause_hooks', 'interleaved_async_steps', 'nested_execute']
 LEVEL_TEXT = 'bounded exhaustive symbolic exploration of interleavings of concurrently stepping processes, children and re-entrant executions with Process.current() sampled at every await point, hook and callback'
